@@ -169,7 +169,7 @@ def run(ctx):
             for b, t in a.calls:
                 if (t.callee or "").startswith(LM + "ListMatcherBuilder::"):
                     o = prim.origin_of_operand(fn, t.args[0])
-                    ok = any(x.k == "var" and x.a.get("name") == "top_level_matcher" for x in o.walk()) or any(c == LM + "ListMatcherBuilder::new" for c in o.callees())
+                    ok = any(x.k == "var" and fn.local_ty(x.a["local"]).endswith("logical_matchers::ListMatcherBuilder") for x in o.walk()) or any(c == LM + "ListMatcherBuilder::new" for c in o.callees())
                     ctx.ob("R2", "operator:%s-receiver" % tok, ok, "receiver of %s is %s" % (meth, o.fmt()), fn=fn, where=prim.site(fn, b), nontrivial=False)
         # negation
         inv = fn.locals_named("invert_next_matcher")
@@ -177,8 +177,10 @@ def run(ctx):
         if flag is None:
             # role: bool local assigned Not(itself)
             for l, defs in prim.local_defs(fn).items():
-                for bb, kind, obj in defs:
-                    if kind == "assign" and obj.rv is not None and obj.rv.k == "un" and obj.rv.j["op"] == "Not" and obj.rv.ops[0].place is not None and obj.rv.ops[0].place.local == l:
+                if fn.local_ty(l) != "bool" or fn.local_name(l) is None:
+                    continue
+                for d_ in defs:
+                    if d_[1] == "assign" and _is_toggle(fn, d_, l):
                         flag = l
         if flag is None:
             ctx.missing("R2", "pending-negation flag")
@@ -269,6 +271,10 @@ def run(ctx):
             ctx.ob("R3", "shape:%s" % ty, False, "cannot decide: %s" % e, fn=f)
             continue
         got = g.canon()
+        if ty == "ListMatcher":
+            rcl = C.find_local(f, "rc", ty="bool", pred=lambda fn_, l_: any(d[1] == "assign" and d[2].rv is not None and d[2].rv.k == "use" and d[2].rv.ops[0].place is not None and d[2].rv.ops[0].place.local == l_ for d in prim.local_defs(fn_).get(0, [])))
+            if rcl and f.local_name(rcl[0]) != "rc":
+                got = [(a, l, b.replace("RET(var:%s)" % f.local_name(rcl[0]), "RET(var:rc)")) for a, l, b in got]
         extra, missing = C.diff_edges(got, want)
         ctx.ob("R3", "shape:%s" % ty, not extra and not missing,
                "evaluation event graph of %s::matches differs from the reference evaluation.\n  unexpected edges: %s\n  missing edges: %s\n  (events: child=sub-matcher matches(), quit?=should_quit(), next=iterator step; labels are the outcome of the source event)" % (ty, C.edges_str(extra), C.edges_str(missing)),
@@ -451,7 +457,7 @@ def run(ctx):
         qw = []
         for b in pf.reachable():
             for s in pf.blocks[b].stmts:
-                if s.lhs is not None and s.lhs.proj == ["*"] and pf.local_name(s.lhs.local) == "quit":
+                if s.lhs is not None and s.lhs.proj == ["*"] and 1 <= s.lhs.local <= pf.arg_count and pf.local_ty(s.lhs.local) == "&mut bool":
                     qw.append((b, s))
         ok = len(qw) == 1 and qw[0][1].rv.k == "use" and qw[0][1].rv.ops[0].const_value() is True
         if ok:
@@ -469,7 +475,7 @@ def run(ctx):
             return None
         def brole(f, bb, o):
             o = o.strip() if o is not None else None
-            if o is not None and o.k == "var" and o.a.get("name") == "quit":
+            if o is not None and o.k == "var" and o.a.get("local") is not None and o.a.get("local") == C.quit_flag_local(f):
                 return "quit_flag"
             return None
         g2 = C.G(prim.event_graph(df, role, branch_role=brole))
@@ -486,7 +492,7 @@ def run(ctx):
         for b, t in df.calls():
             if t.callee == C.PROCESS_DIR:
                 o = prim.origin_of_operand(df, t.args[4])
-                ctx.ob("R5", "same-quit-flag", any(x.k == "var" and x.a.get("name") == "quit" for x in o.walk()), "process_dir receives %s as quit flag" % o.fmt(), fn=df, where=prim.site(df, b), nontrivial=False)
+                ctx.ob("R5", "same-quit-flag", any(x.k == "var" and x.a.get("local") == C.quit_flag_local(df) for x in o.walk()), "process_dir receives %s as quit flag" % o.fmt(), fn=df, where=prim.site(df, b), nontrivial=False)
 
 
 def _is_toggle(fn, d, flag):
